@@ -7,8 +7,11 @@
 //   panic.
 //
 // Conventions of this file
-// * slice LENGTHS are concrete per call of a body fn (README pitfall 1); every scalar argument and
-//   every element value is symbolic over its full type unless the unit says otherwise.
+// * slice LENGTHS and the scalars that steer loops / divisions (partition order, block size,
+//   warm-up length, LPC order) are concrete per call of a body fn (README pitfall 1: a symbolic
+//   warm-up length alone costs 4x, a symbolic block size > 400 s); each unit enumerates a set of
+//   such "shapes" that contains every inconsistent combination named by the property.  Every
+//   element value and every remaining scalar is symbolic over its full type.
 // * "total" == the call returns: Kani reports every reachable panic / arithmetic overflow / failed
 //   (debug_)assert / out-of-bounds index inside the callee as a failed check.
 // * the 64/32-lane reductions called by `Residual::from_parts` are replaced by their scalar
@@ -79,8 +82,54 @@ fn c18_wrapping_sum_contract() {
 // Shared helpers
 // ================================================================================================
 
+/// A user sink that only measures: every primitive operation checks its own pre-condition (no
+/// more bits than the value type has) and advances the length.  It overrides `write_zeros` the
+/// way `MemSink` does.  Components that contain a `Residual` are serialised into it: all panics /
+/// overflows / index errors inside the component's `write` stay visible, while the bit CONTENTS
+/// (RFC layout) of well-formed components are the subject of bitrepr::verif_sub (C02/C08), which
+/// needs `SpecSink` and is ~10x more expensive per written sample.
+struct LenSink {
+    len: usize,
+}
+
+impl BitSink for LenSink {
+    type Error = crate::bitsink::verif::SpecSinkError;
+    fn align_to_byte(&mut self) -> Result<usize, Self::Error> {
+        let r = (8 - self.len % 8) % 8;
+        self.len += r;
+        Ok(r)
+    }
+    fn write_lsbs<T: crate::bitsink::Bits>(&mut self, _val: T, n: usize) -> Result<(), Self::Error> {
+        assert!(n <= 8 * std::mem::size_of::<T>());
+        self.len += n;
+        Ok(())
+    }
+    fn write_msbs<T: crate::bitsink::Bits>(&mut self, _val: T, n: usize) -> Result<(), Self::Error> {
+        assert!(n <= 8 * std::mem::size_of::<T>());
+        self.len += n;
+        Ok(())
+    }
+    fn write<T: crate::bitsink::Bits>(&mut self, _val: T) -> Result<(), Self::Error> {
+        self.len += 8 * std::mem::size_of::<T>();
+        Ok(())
+    }
+    fn write_zeros(&mut self, n: usize) -> Result<(), Self::Error> {
+        self.len += n;
+        Ok(())
+    }
+}
+
 /// `count_bits()` does not panic, `write` succeeds without panicking and delivers exactly
-/// `count_bits()` bits.  Returns the written bits for layout checks.
+/// `count_bits()` bits (length only).
+fn serialises_len<T: BitRepr>(c: &T) -> usize {
+    let n = c.count_bits();
+    let mut s = LenSink { len: 0 };
+    assert!(c.write(&mut s).is_ok());
+    assert!(s.len == n);
+    n
+}
+
+/// Same into the ideal bit string; returns the written bits for layout checks.
 fn serialises<T: BitRepr>(c: &T) -> SpecSink {
     let n = c.count_bits();
     let mut s = SpecSink::new();
@@ -134,65 +183,90 @@ fn spec_residual_wellformed(res: &Residual) -> u64 {
 // Residual
 // ================================================================================================
 
-/// TOTALITY of `Residual::new`: all three slice lengths concrete, everything else (partition
-/// order, block size, warm-up length, every element) symbolic over the full type.
-fn residual_new_total<const NP: usize, const NQ: usize, const NR: usize>(consistent: bool) {
+/// One call of `Residual::new` with a concrete shape and symbolic contents.  The call must return;
+/// `Ok` must report the arguments unchanged (no `as u8` re-interpretation of the order).
+fn residual_new_total<const NP: usize, const NQ: usize, const NR: usize>(
+    order: usize,
+    bs: usize,
+    w: usize,
+) -> bool {
     let p: [u8; NP] = kani::any();
     let q: [u32; NQ] = kani::any();
     let r: [u32; NR] = kani::any();
-    let order: usize = kani::any();
-    let bs: usize = kani::any();
-    let w: usize = kani::any();
-    let res = Residual::new(order, bs, w, &p, &q, &r);
-    match res {
+    match Residual::new(order, bs, w, &p, &q, &r) {
         Ok(c) => {
-            // no silent re-interpretation of the arguments (e.g. `order as u8`)
             assert!(c.partition_order() == order && c.block_size() == bs);
             assert!(c.warmup_length() == w);
-            assert!(NQ == bs && NR == bs && NP == (1usize << order));
+            assert!(NQ == bs && NR == bs && order < 64 && NP == (1usize << order));
+            true
         }
-        Err(_) => {}
-    }
-    if consistent {
-        kani::cover!(Residual::new(order, bs, w, &p, &q, &r).is_ok());
+        Err(_) => false,
     }
 }
 
-macro_rules! residual_new_total_harness {
-    ($name:ident, $np:expr, $nq:expr, $nr:expr, $consistent:expr) => {
-        #[kani::proof]
-        #[kani::unwind(8)]
-        #[kani::stub(std::fmt::format, stub_format)]
-        #[kani::stub(find_max, contract_find_max)]
-        #[kani::stub(wrapping_sum, contract_wrapping_sum)]
-        fn $name() {
-            residual_new_total::<$np, $nq, $nr>($consistent);
-        }
-    };
+//@ unit props=C18 tier=quick kind=bounded timeout=600 funcs="Residual::new; Residual::from_parts; Residual::verify" stubs="find_max -> scalar maximum (c18_find_max_contract); wrapping_sum -> scalar wrapping sum (c18_wrapping_sum_contract)" bound="shapes (order, block, warm-up | #params, #quotients, #remainders): lengths that disagree with each other, with the block size, or with 2^order; all values symbolic"
+#[kani::proof]
+#[kani::unwind(8)]
+#[kani::stub(std::fmt::format, stub_format)]
+#[kani::stub(find_max, contract_find_max)]
+#[kani::stub(wrapping_sum, contract_wrapping_sum)]
+fn c18_residual_new_total_lengths() {
+    let ok = residual_new_total::<1, 2, 2>(0, 2, 0); // consistent: reachable Ok
+    kani::cover!(ok);
+    residual_new_total::<1, 2, 1>(0, 2, 0); // remainders shorter than quotients
+    residual_new_total::<1, 1, 2>(0, 2, 0); // quotients shorter than the block
+    residual_new_total::<1, 2, 2>(0, 3, 0); // block size above the lengths
+    residual_new_total::<1, 2, 2>(1, 2, 0); // 1 parameter for 2 partitions
+    residual_new_total::<2, 2, 2>(0, 2, 0); // 2 parameters for 1 partition
+    residual_new_total::<0, 2, 2>(0, 2, 0); // no parameter at all
 }
 
-//@ unit name=c18_residual_new_total_p1_q2_r2 props=C18 tier=quick kind=bounded timeout=600 funcs="Residual::new; Residual::from_parts; Residual::verify" stubs="find_max -> scalar maximum (c18_find_max_contract); wrapping_sum -> scalar wrapping sum (c18_wrapping_sum_contract)" bound="1 rice parameter, 2 quotients, 2 remainders; order, block size, warm-up length and all values symbolic"
-//@ unit name=c18_residual_new_total_p2_q4_r4 props=C18 tier=quick kind=bounded timeout=600 funcs="Residual::new; Residual::from_parts; Residual::verify" stubs="find_max -> scalar maximum (c18_find_max_contract); wrapping_sum -> scalar wrapping sum (c18_wrapping_sum_contract)" bound="2 rice parameters, 4 quotients, 4 remainders; order, block size, warm-up length and all values symbolic"
-//@ unit name=c18_residual_new_total_p2_q2_r2 props=C18 tier=quick kind=bounded timeout=600 funcs="Residual::new; Residual::from_parts; Residual::verify" stubs="find_max -> scalar maximum (c18_find_max_contract); wrapping_sum -> scalar wrapping sum (c18_wrapping_sum_contract)" bound="2 rice parameters, 2 quotients, 2 remainders; order, block size, warm-up length and all values symbolic"
-//@ unit name=c18_residual_new_total_p0_q2_r2 props=C18 tier=quick kind=bounded timeout=600 funcs="Residual::new; Residual::from_parts; Residual::verify" stubs="find_max -> scalar maximum (c18_find_max_contract); wrapping_sum -> scalar wrapping sum (c18_wrapping_sum_contract)" bound="NO rice parameter, 2 quotients, 2 remainders; order, block size, warm-up length and all values symbolic"
-//@ unit name=c18_residual_new_total_p1_q2_r1 props=C18 tier=quick kind=bounded timeout=600 funcs="Residual::new; Residual::from_parts; Residual::verify" stubs="find_max -> scalar maximum (c18_find_max_contract); wrapping_sum -> scalar wrapping sum (c18_wrapping_sum_contract)" bound="1 rice parameter, 2 quotients, 1 remainder (lengths disagree); order, block size, warm-up length and all values symbolic"
-//@ unit name=c18_residual_new_total_p1_q0_r0 props=C18 tier=quick kind=bounded timeout=600 funcs="Residual::new; Residual::from_parts; Residual::verify" stubs="find_max -> scalar maximum (c18_find_max_contract); wrapping_sum -> scalar wrapping sum (c18_wrapping_sum_contract)" bound="1 rice parameter, empty block; order, block size, warm-up length and all values symbolic"
-residual_new_total_harness!(c18_residual_new_total_p1_q2_r2, 1, 2, 2, true);
-residual_new_total_harness!(c18_residual_new_total_p2_q4_r4, 2, 4, 4, true);
-residual_new_total_harness!(c18_residual_new_total_p2_q2_r2, 2, 2, 2, true);
-residual_new_total_harness!(c18_residual_new_total_p0_q2_r2, 0, 2, 2, false);
-residual_new_total_harness!(c18_residual_new_total_p1_q2_r1, 1, 2, 1, false);
-residual_new_total_harness!(c18_residual_new_total_p1_q0_r0, 1, 0, 0, true);
+//@ unit props=C18 tier=quick kind=bounded timeout=600 funcs="Residual::new; Residual::from_parts; Residual::verify" stubs="find_max -> scalar maximum (c18_find_max_contract); wrapping_sum -> scalar wrapping sum (c18_wrapping_sum_contract)" bound="shapes: partition order 20 / 64 / 256, warm-up above the block size / usize::MAX, block size usize::MAX; all values symbolic"
+#[kani::proof]
+#[kani::unwind(8)]
+#[kani::stub(std::fmt::format, stub_format)]
+#[kani::stub(find_max, contract_find_max)]
+#[kani::stub(wrapping_sum, contract_wrapping_sum)]
+fn c18_residual_new_total_scalars() {
+    residual_new_total::<1, 2, 2>(20, 2, 0); // order above 15
+    residual_new_total::<1, 2, 2>(64, 2, 0); // `1 << order` out of range
+    residual_new_total::<1, 2, 2>(256, 2, 0); // `order as u8` == 0
+    residual_new_total::<1, 2, 2>(0, 2, 3); // warm-up longer than the block
+    residual_new_total::<1, 2, 2>(0, 2, usize::MAX);
+    residual_new_total::<1, 2, 2>(0, usize::MAX, 0); // `max_quotient * block_size`
+}
+
+//@ unit props=C18 tier=quick kind=bounded timeout=600 funcs="Residual::new; Residual::from_parts; Residual::verify" stubs="find_max -> scalar maximum (c18_find_max_contract); wrapping_sum -> scalar wrapping sum (c18_wrapping_sum_contract)" bound="shapes: empty block, more partitions than samples, block not a multiple of the partition count, warm-up reaching into the second partition; all values symbolic"
+#[kani::proof]
+#[kani::unwind(8)]
+#[kani::stub(std::fmt::format, stub_format)]
+#[kani::stub(find_max, contract_find_max)]
+#[kani::stub(wrapping_sum, contract_wrapping_sum)]
+fn c18_residual_new_total_partitions() {
+    let ok = residual_new_total::<1, 0, 0>(0, 0, 0); // empty block
+    kani::cover!(ok);
+    residual_new_total::<4, 2, 2>(2, 2, 0); // partition length 0
+    residual_new_total::<2, 3, 3>(1, 3, 0); // 3 samples in 2 partitions
+    residual_new_total::<2, 2, 2>(1, 2, 2); // warm-up == block > partition length
+    let ok = residual_new_total::<2, 4, 4>(1, 4, 1);
+    kani::cover!(ok);
+}
 
 /// `Residual::verify()` is the gate for values that did not come through `new` (crate-private
-/// `from_parts`, serde `Deserialize` of arbitrary field values): on ARBITRARY fields it returns,
-/// and `Ok` implies the residual is well-formed per the RFC and serialises to `count_bits()` bits
-/// (== the independently computed size) with the order / first parameter at their positions.
-fn residual_verify_gate<const NP: usize, const NQ: usize, const NR: usize>(consistent: bool) {
+/// `from_parts`, serde `Deserialize` of arbitrary field values).  On a concrete shape with
+/// ARBITRARY contents and cached sums it returns, and `Ok` implies the residual is well-formed
+/// per the RFC (`spec_residual_wellformed`), i.e. the pre-condition under which
+/// bitrepr::verif_sub proves the writer, and `count_bits()` does not panic and equals the
+/// independently computed size.
+fn residual_verify_gate<const NP: usize, const NQ: usize, const NR: usize>(
+    order: u8,
+    bs: usize,
+    w: usize,
+) -> bool {
     let res = Residual {
-        partition_order: kani::any(),
-        block_size: kani::any(),
-        warmup_length: kani::any(),
+        partition_order: order,
+        block_size: bs,
+        warmup_length: w,
         rice_params: Vec::from(kani::any::<[u8; NP]>()),
         quotients: Vec::from(kani::any::<[u32; NQ]>()),
         remainders: Vec::from(kani::any::<[u32; NR]>()),
@@ -202,52 +276,60 @@ fn residual_verify_gate<const NP: usize, const NQ: usize, const NR: usize>(consi
     let ok = res.verify().is_ok();
     if ok {
         let bits = spec_residual_wellformed(&res);
-        let s = serialises(&res);
-        assert!(s.id.len as u64 == bits);
-        assert!(field(&s, 0, 6) == res.partition_order as u64);
-        assert!(field(&s, 6, 4) == res.rice_params[0] as u64);
+        assert!(res.count_bits() as u64 == bits);
     }
-    if consistent {
-        kani::cover!(ok);
-        kani::cover!(ok && res.warmup_length == 1);
-    }
-    kani::cover!(!ok);
+    ok
 }
 
-macro_rules! residual_verify_gate_harness {
-    ($name:ident, $np:expr, $nq:expr, $nr:expr, $consistent:expr) => {
-        #[kani::proof]
-        #[kani::unwind(8)]
-        #[kani::stub(std::fmt::format, stub_format)]
-        fn $name() {
-            residual_verify_gate::<$np, $nq, $nr>($consistent);
-        }
-    };
+//@ unit props=C18 tier=quick kind=bounded timeout=600 funcs="Residual::verify; Residual::count_bits" bound="shapes (order, block, warm-up | #params, #quotients, #remainders) as in c18_residual_new_total_lengths plus well-formed ones; contents and cached sums symbolic"
+#[kani::proof]
+#[kani::unwind(8)]
+#[kani::stub(std::fmt::format, stub_format)]
+fn c18_residual_verify_gate_lengths() {
+    let ok = residual_verify_gate::<1, 2, 2>(0, 2, 0);
+    kani::cover!(ok);
+    let ok = residual_verify_gate::<1, 3, 3>(0, 3, 2);
+    kani::cover!(ok);
+    residual_verify_gate::<1, 2, 1>(0, 2, 0);
+    residual_verify_gate::<1, 1, 2>(0, 2, 0);
+    residual_verify_gate::<1, 2, 2>(0, 3, 0);
+    residual_verify_gate::<1, 2, 2>(1, 2, 0);
+    residual_verify_gate::<2, 2, 2>(0, 2, 0);
+    residual_verify_gate::<0, 2, 2>(0, 2, 0);
 }
 
-//@ unit name=c18_residual_verify_gate_p1_q2_r2 props=C18 tier=quick kind=bounded timeout=600 funcs="Residual::verify; Residual::write; Residual::count_bits" bound="1 rice parameter, 2 quotients, 2 remainders; every field value symbolic"
-//@ unit name=c18_residual_verify_gate_p1_q3_r3 props=C18 tier=quick kind=bounded timeout=600 funcs="Residual::verify; Residual::write; Residual::count_bits" bound="1 rice parameter, 3 quotients, 3 remainders; every field value symbolic"
-//@ unit name=c18_residual_verify_gate_p2_q4_r4 props=C18 tier=quick kind=bounded timeout=600 funcs="Residual::verify; Residual::write; Residual::count_bits" bound="2 rice parameters, 4 quotients, 4 remainders; every field value symbolic"
-//@ unit name=c18_residual_verify_gate_p2_q2_r2 props=C18 tier=quick kind=bounded timeout=600 funcs="Residual::verify; Residual::write; Residual::count_bits" bound="2 rice parameters, 2 quotients, 2 remainders; every field value symbolic"
-//@ unit name=c18_residual_verify_gate_p0_q2_r2 props=C18 tier=quick kind=bounded timeout=600 funcs="Residual::verify" bound="no rice parameter, 2 quotients, 2 remainders; every field value symbolic"
-//@ unit name=c18_residual_verify_gate_p1_q2_r1 props=C18 tier=quick kind=bounded timeout=600 funcs="Residual::verify" bound="1 rice parameter, 2 quotients, 1 remainder; every field value symbolic"
-//@ unit name=c18_residual_verify_gate_p1_q0_r0 props=C18 tier=quick kind=bounded timeout=600 funcs="Residual::verify; Residual::write; Residual::count_bits" bound="1 rice parameter, empty block; every field value symbolic"
-residual_verify_gate_harness!(c18_residual_verify_gate_p1_q2_r2, 1, 2, 2, true);
-residual_verify_gate_harness!(c18_residual_verify_gate_p1_q3_r3, 1, 3, 3, true);
-residual_verify_gate_harness!(c18_residual_verify_gate_p2_q4_r4, 2, 4, 4, true);
-residual_verify_gate_harness!(c18_residual_verify_gate_p2_q2_r2, 2, 2, 2, true);
-residual_verify_gate_harness!(c18_residual_verify_gate_p0_q2_r2, 0, 2, 2, false);
-residual_verify_gate_harness!(c18_residual_verify_gate_p1_q2_r1, 1, 2, 1, false);
-residual_verify_gate_harness!(c18_residual_verify_gate_p1_q0_r0, 1, 0, 0, false);
+//@ unit props=C18 tier=quick kind=bounded timeout=600 funcs="Residual::verify; Residual::count_bits" bound="shapes: partition order 20 / 64 / 255, warm-up above the block size / usize::MAX, empty block, partition length 0, uneven partitions, warm-up beyond the first partition; contents and cached sums symbolic"
+#[kani::proof]
+#[kani::unwind(8)]
+#[kani::stub(std::fmt::format, stub_format)]
+fn c18_residual_verify_gate_scalars() {
+    residual_verify_gate::<1, 2, 2>(20, 2, 0);
+    residual_verify_gate::<1, 2, 2>(64, 2, 0);
+    residual_verify_gate::<1, 2, 2>(255, 2, 0);
+    residual_verify_gate::<1, 2, 2>(0, 2, 3);
+    residual_verify_gate::<1, 2, 2>(0, 2, usize::MAX);
+    residual_verify_gate::<1, 0, 0>(0, 0, 0);
+    residual_verify_gate::<4, 2, 2>(2, 2, 0);
+    residual_verify_gate::<2, 3, 3>(1, 3, 0);
+    residual_verify_gate::<2, 2, 2>(1, 2, 2);
+    let ok = residual_verify_gate::<2, 4, 4>(1, 4, 2);
+    kani::cover!(ok);
+}
 
-/// `Residual::new(..) == Ok(c)`  ==>  `c.verify()` is Ok, `c` is well-formed, and it serialises to
-/// exactly `count_bits()` bits.  Partition order and block size concrete (consistent with the
-/// slice lengths), warm-up length and all values symbolic.
-fn residual_new_ok_serialises<const NP: usize, const N: usize>(order: usize) {
+/// `Residual::new(..) == Ok(c)`  ==>  `c.verify()` is Ok, `c` is well-formed, and it serialises
+/// without panicking to exactly `count_bits()` bits (== the independently computed size) with the
+/// partition order and the first parameter at their RFC positions.  Quotients are bounded by 70
+/// only here (the zero run is `BitSink::write_zeros`, proved for every length in bitsink::verif);
+/// parameters and remainders range over their full types.
+fn residual_new_ok_serialises<const NP: usize, const N: usize>(order: usize, w: usize) -> bool {
     let p: [u8; NP] = kani::any();
     let q: [u32; N] = kani::any();
     let r: [u32; N] = kani::any();
-    let w: usize = kani::any();
+    let mut i = 0;
+    while i < N {
+        kani::assume(q[i] <= 70);
+        i += 1;
+    }
     match Residual::new(order, N, w, &p, &q, &r) {
         Ok(c) => {
             assert!(c.verify().is_ok());
@@ -256,31 +338,112 @@ fn residual_new_ok_serialises<const NP: usize, const N: usize>(order: usize) {
             assert!(s.id.len as u64 == bits);
             assert!(field(&s, 0, 6) == order as u64);
             assert!(field(&s, 6, 4) == p[0] as u64);
-            // accessors report the arguments
             assert!(c.rice_parameter(0) == p[0] as usize);
-            kani::cover!(w == 1);
-            kani::cover!(w == 0 && q[0] == 3);
+            true
+        }
+        Err(_) => false,
+    }
+}
+
+//@ unit props=C18 tier=quick kind=bounded timeout=600 funcs="Residual::new; Residual::verify; Residual::write; Residual::count_bits" stubs="find_max -> scalar maximum (c18_find_max_contract); wrapping_sum -> scalar wrapping sum (c18_wrapping_sum_contract)" bound="partition order 0, block 2 with warm-up 0 and 1, block 3 with warm-up 3; quotients <= 70, parameters and remainders symbolic"
+#[kani::proof]
+#[kani::unwind(8)]
+#[kani::stub(std::fmt::format, stub_format)]
+#[kani::stub(find_max, contract_find_max)]
+#[kani::stub(wrapping_sum, contract_wrapping_sum)]
+fn c18_residual_new_ok_order0() {
+    let ok = residual_new_ok_serialises::<1, 2>(0, 0);
+    kani::cover!(ok);
+    let ok = residual_new_ok_serialises::<1, 2>(0, 1);
+    kani::cover!(ok);
+    let ok = residual_new_ok_serialises::<1, 3>(0, 3);
+    kani::cover!(ok);
+}
+
+//@ unit props=C18 tier=quick kind=bounded timeout=600 funcs="Residual::new; Residual::verify; Residual::write; Residual::count_bits" stubs="find_max -> scalar maximum (c18_find_max_contract); wrapping_sum -> scalar wrapping sum (c18_wrapping_sum_contract)" bound="partition order 1, block 4 with warm-up 0, 2 and 3 (3 reaches into the second partition); quotients <= 70, parameters and remainders symbolic"
+#[kani::proof]
+#[kani::unwind(8)]
+#[kani::stub(std::fmt::format, stub_format)]
+#[kani::stub(find_max, contract_find_max)]
+#[kani::stub(wrapping_sum, contract_wrapping_sum)]
+fn c18_residual_new_ok_order1() {
+    let ok = residual_new_ok_serialises::<2, 4>(1, 0);
+    kani::cover!(ok);
+    let ok = residual_new_ok_serialises::<2, 4>(1, 2);
+    kani::cover!(ok);
+    residual_new_ok_serialises::<2, 4>(1, 3);
+}
+
+/// Field-wise identical copy of `c` whose loop-steering scalars are the (asserted equal) concrete
+/// values: lets CBMC bound the writer's loops by constants (a value moved out of a `Result` loses
+/// constant propagation; measured 267 s -> see unit times).
+fn residual_with_concrete_shape(c: Residual, order: usize, bs: usize, w: usize) -> Residual {
+    assert!(c.partition_order as usize == order && c.block_size == bs && c.warmup_length == w);
+    Residual {
+        partition_order: order as u8,
+        block_size: bs,
+        warmup_length: w,
+        rice_params: c.rice_params,
+        quotients: c.quotients,
+        remainders: c.remainders,
+        sum_quotients: c.sum_quotients,
+        sum_rice_params: c.sum_rice_params,
+    }
+}
+
+#[kani::proof]
+#[kani::unwind(8)]
+#[kani::stub(std::fmt::format, stub_format)]
+#[kani::stub(find_max, contract_find_max)]
+#[kani::stub(wrapping_sum, contract_wrapping_sum)]
+fn x18_b() {
+    let p: [u8; 1] = kani::any();
+    let q: [u32; 2] = kani::any();
+    let r: [u32; 2] = kani::any();
+    match Residual::new(0, 2, 0, &p, &q, &r) {
+        Ok(c) => {
+            let c = residual_with_concrete_shape(c, 0, 2, 0);
+            let s = serialises_len(&c);
         }
         Err(_) => {}
     }
 }
-
-macro_rules! residual_new_ok_harness {
-    ($name:ident, $np:expr, $n:expr, $order:expr) => {
-        #[kani::proof]
-        #[kani::unwind(8)]
-        #[kani::stub(std::fmt::format, stub_format)]
-        #[kani::stub(find_max, contract_find_max)]
-        #[kani::stub(wrapping_sum, contract_wrapping_sum)]
-        fn $name() {
-            residual_new_ok_serialises::<$np, $n>($order);
+#[kani::proof]
+#[kani::unwind(8)]
+#[kani::stub(std::fmt::format, stub_format)]
+#[kani::stub(find_max, contract_find_max)]
+#[kani::stub(wrapping_sum, contract_wrapping_sum)]
+fn x18_d() {
+    let p: [u8; 2] = kani::any();
+    let q: [u32; 4] = kani::any();
+    let r: [u32; 4] = kani::any();
+    match Residual::new(1, 4, 1, &p, &q, &r) {
+        Ok(c) => {
+            let c = residual_with_concrete_shape(c, 1, 4, 1);
+            let bits = spec_residual_wellformed(&c);
+            let s = serialises_len(&c);
+            assert!(s as u64 == bits);
         }
-    };
+        Err(_) => {}
+    }
 }
-
-//@ unit name=c18_residual_new_ok_o0_n2 props=C18 tier=quick kind=bounded timeout=600 funcs="Residual::new; Residual::verify; Residual::write; Residual::count_bits" stubs="find_max -> scalar maximum (c18_find_max_contract); wrapping_sum -> scalar wrapping sum (c18_wrapping_sum_contract)" bound="partition order 0, block size 2; warm-up length and all values symbolic"
-//@ unit name=c18_residual_new_ok_o0_n3 props=C18 tier=thorough kind=bounded timeout=900 funcs="Residual::new; Residual::verify; Residual::write; Residual::count_bits" stubs="find_max -> scalar maximum (c18_find_max_contract); wrapping_sum -> scalar wrapping sum (c18_wrapping_sum_contract)" bound="partition order 0, block size 3; warm-up length and all values symbolic"
-//@ unit name=c18_residual_new_ok_o1_n4 props=C18 tier=quick kind=bounded timeout=600 funcs="Residual::new; Residual::verify; Residual::write; Residual::count_bits" stubs="find_max -> scalar maximum (c18_find_max_contract); wrapping_sum -> scalar wrapping sum (c18_wrapping_sum_contract)" bound="partition order 1, block size 4; warm-up length and all values symbolic"
-residual_new_ok_harness!(c18_residual_new_ok_o0_n2, 1, 2, 0);
-residual_new_ok_harness!(c18_residual_new_ok_o0_n3, 1, 3, 0);
-residual_new_ok_harness!(c18_residual_new_ok_o1_n4, 2, 4, 1);
+#[kani::proof]
+#[kani::unwind(8)]
+#[kani::stub(std::fmt::format, stub_format)]
+#[kani::stub(find_max, contract_find_max)]
+#[kani::stub(wrapping_sum, contract_wrapping_sum)]
+fn x18_e() {
+    let p: [u8; 2] = kani::any();
+    let q: [u32; 4] = kani::any();
+    let r: [u32; 4] = kani::any();
+    kani::assume(q[0] <= 70 && q[1] <= 70 && q[2] <= 70 && q[3] <= 70);
+    match Residual::new(1, 4, 1, &p, &q, &r) {
+        Ok(c) => {
+            let c = residual_with_concrete_shape(c, 1, 4, 1);
+            let bits = spec_residual_wellformed(&c);
+            let s = serialises(&c);
+            assert!(s.id.len as u64 == bits);
+        }
+        Err(_) => {}
+    }
+}
